@@ -7,7 +7,7 @@
 VALIDATE = True
 SITES = ["no-exception", "verdict-equals-rfc1071", "wiring-accepted-packets-only"]
 MODELS = ["tlexport.packet.dpkt replaced by tlv/models/dpkt_model.py (spec parser, validated against real dpkt in the replay)",
-          "frames: Ethernet II, IPv4 IHL=5 no fragments / IPv6 no extension headers, TCP data offset 5"]
+          "frames: Ethernet II, IPv4 IHL=5 no fragments / IPv6 without or with 8-byte extension headers, TCP data offset 5"]
 ASSUMPTIONS = ["a UDP checksum field of 0x0000 ('not computed' in IPv4, illegal in IPv6) is neither right nor wrong: excluded",
                "a checksum is correct iff the RFC 1071 receiver sum over pseudo header and segment (field included) is 0xffff"]
 
@@ -29,6 +29,11 @@ def configs(tier, seed):
             for tr in ((4,) if tier == "quick" else (1, 4, 6)):
                 n = _lens(tier, proto)[1]
                 out.append({"name": "leaf-ipv%d-%s-seg%d-trailer%d" % (ipv, proto, n, tr), "harness": "leaf", "ipv": ipv, "proto": proto, "n": n, "trailer": tr})
+    # IPv6 with an extension header between the fixed header and the segment (the pseudo header names the upper-layer protocol)
+    for proto in ("tcp", "udp"):
+        for ext in (("dstopts",) if tier == "quick" else ("dstopts", "hopopts", "routing", "dstopts+dstopts")):
+            n = _lens(tier, proto)[1]
+            out.append({"name": "leaf-ipv6-%s-seg%d-%s" % (proto, n, ext), "harness": "leaf", "ipv": 6, "proto": proto, "n": n, "ext": ext})
     for proto in ("tls", "quic"):
         out.append({"name": "wiring-%s" % proto, "harness": "wiring", "proto": proto, "mode": "stub"})
     return out
@@ -39,15 +44,25 @@ def bounds(tier):
             "symbolic": "IP addresses and every byte of the transport segment except the TCP data-offset nibble (5)",
             "trailer": "4 (thorough: 1, 4, 6) arbitrary bytes after the IP datagram",
             "wiring": "TLS 1.2 and QUIC connection through main.run -c with a damaged copy of any one packet just before it",
-            "outside": "longer segments; IP options; IPv6 extension headers; more than one damaged packet per capture"}
+            "ipv6 extension headers": "one destination-options header (thorough: hop-by-hop, routing, two headers) of 8 bytes",
+            "outside": "longer segments; IPv4 options; other IPv6 extension headers; more than one damaged packet per capture"}
 
 
 def _build(cfg, src, dst, seg, trailer=None):
     from tlv.oracle import frames
     ipv6 = cfg["ipv"] == 6
     proto = 6 if cfg["proto"] == "tcp" else 17
+    ext = b""
+    first = proto
+    if cfg.get("ext"):
+        kinds = cfg["ext"].split("+")
+        codes = {"dstopts": 60, "hopopts": 0, "routing": 43}
+        first = codes[kinds[0]]
+        for k, kind in enumerate(kinds):
+            nxt = codes[kinds[k + 1]] if k + 1 < len(kinds) else proto
+            ext += bytes([nxt, 0, 1, 4, 0, 0, 0, 0]) if kind != "routing" else bytes([nxt, 0, 0, 0, 0, 0, 0, 0])
     fr = frames.ethernet(b"\x02\x00\x00\x00\x00\x02", b"\x02\x00\x00\x00\x00\x01", ipv6,
-                         frames.ip_header(ipv6, src, dst, proto, len(seg)) + seg)
+                         frames.ip_header(ipv6, src, dst, first, len(ext) + len(seg)) + ext + seg)
     return fr + trailer if trailer is not None and len(trailer) else fr
 
 
